@@ -113,6 +113,7 @@ def run(ctx):
         'C03.b sum_k exp(i pi theta_k) P_k equals the textbook matrix of the family (big-endian), incl. qutrit X/Z',
         'C03.c named constants are the documented family with the documented literal arguments',
         'C03.d PAULI_EIGEN_MAP (shared with C14.c)',
+        'C03.f _unitary_ of GPI/GPI2/MS/ZZ (IonQ), FSim, PhasedFSim, PhasedXZ equals the documented closed form at probe parameters',
         'C03.e Rx/Ry/Rz: exponent = rads/pi, global_shift = -1/2, inverse conversion in _with_exponent; Sycamore = FSim(pi/2, pi/6), Willow = FSim(pi/2, pi/9)',
     ]
     ctx.not_decided += ['parameter-dependent closed forms (FSim, PhasedFSim, PhasedX, PhasedXZ, channels, QFT, diagonal, arithmetic, IonQ native gates)',
@@ -199,6 +200,8 @@ def run(ctx):
                     msg = f'{name} = {ast.unparse(v)} but the documented definition is {cls}({", ".join(f"{k}={x}" for k, x in kws.items())})'
             ctx.ob('C03.c', key, ok, msg, m.rel, getattr(v, 'lineno', 1))
 
+    parametric_rule(ctx, repo)
+
     # ------------------------------------------------------------------ C03.e
     ctx.rule('C03.e', 'rotation helpers: R{x,y,z}(rads) pass exponent = rads/pi and global_shift = -0.5 to their family and invert that in '
              '_with_exponent; rx/ry/rz build them; Sycamore = FSim(theta=pi/2, phi=pi/6), Willow = FSim(theta=pi/2, phi=pi/9); _pi is pi', floor=12, style='TBL')
@@ -254,6 +257,99 @@ def run(ctx):
                 ok = False
                 msg = f'angles not literal: {ex}'
         ctx.ob('C03.e', cq, ok, msg, ci.mod.rel, init.lineno)
+
+
+def _Xp(t):
+    return np.exp(1j * np.pi * t / 2) * np.array([[np.cos(np.pi * t / 2), -1j * np.sin(np.pi * t / 2)], [-1j * np.sin(np.pi * t / 2), np.cos(np.pi * t / 2)]])
+
+
+def _Zp(t):
+    return np.diag([1, np.exp(1j * np.pi * t)])
+
+
+def _gpi(phi):
+    return np.array([[0, np.exp(-2j * np.pi * phi)], [np.exp(2j * np.pi * phi), 0]])
+
+
+# documented closed forms (written from the class docstrings / vendor documentation, big-endian)
+PARAMETRIC = {
+    'cirq_ionq.ionq_native_gates.GPIGate': (('phi',), lambda phi: _gpi(phi), [(0,), (0.25,), (0.1,), (-0.37,), (0.5,)]),
+    'cirq_ionq.ionq_native_gates.GPI2Gate': (('phi',), lambda phi: np.array([[1, -1j * np.exp(-2j * np.pi * phi)], [-1j * np.exp(2j * np.pi * phi), 1]]) / np.sqrt(2),
+                                             [(0,), (0.25,), (0.1,), (-0.37,), (0.5,)]),
+    'cirq_ionq.ionq_native_gates.MSGate': (('phi0', 'phi1', 'theta'),
+                                           lambda phi0, phi1, theta: np.cos(np.pi * theta) * np.eye(4) - 1j * np.sin(np.pi * theta) * np.kron(_gpi(phi0), _gpi(phi1)),
+                                           [(0, 0, 0.25), (0.1, 0.3, 0.25), (0.1, 0.3, 0.1), (0, 0, 0), (0.2, -0.4, 0.4), (0.5, 0.25, 0.05)]),
+    'cirq_ionq.ionq_native_gates.ZZGate': (('theta',), lambda theta: np.diag([np.exp(-1j * np.pi * theta), np.exp(1j * np.pi * theta), np.exp(1j * np.pi * theta), np.exp(-1j * np.pi * theta)]),
+                                           [(0,), (0.25,), (0.1,), (-0.3,)]),
+    'cirq.ops.fsim_gate.FSimGate': (('theta', 'phi'),
+                                    lambda theta, phi: np.array([[1, 0, 0, 0], [0, np.cos(theta), -1j * np.sin(theta), 0], [0, -1j * np.sin(theta), np.cos(theta), 0], [0, 0, 0, np.exp(-1j * phi)]]),
+                                    [(0, 0), (np.pi / 2, np.pi / 6), (0.3, 1.1), (-0.7, 2.0), (np.pi / 4, 0)]),
+    'cirq.ops.fsim_gate.PhasedFSimGate': (('theta', 'zeta', 'chi', 'gamma', 'phi'),
+                                          lambda theta, zeta, chi, gamma, phi: np.array([
+                                              [1, 0, 0, 0],
+                                              [0, np.exp(-1j * gamma - 1j * zeta) * np.cos(theta), -1j * np.exp(-1j * gamma + 1j * chi) * np.sin(theta), 0],
+                                              [0, -1j * np.exp(-1j * gamma - 1j * chi) * np.sin(theta), np.exp(-1j * gamma + 1j * zeta) * np.cos(theta), 0],
+                                              [0, 0, 0, np.exp(-2j * gamma - 1j * phi)]]),
+                                          [(0.3, 0.1, 0.2, 0.4, 0.5), (np.pi / 2, 0, 0, 0, np.pi / 6), (1.0, -0.3, 0.7, -0.2, 2.0)]),
+    'cirq.ops.phased_x_z_gate.PhasedXZGate': (('x_exponent', 'z_exponent', 'axis_phase_exponent'),
+                                              lambda x, z, a: _Zp(a + z) @ _Xp(x) @ _Zp(-a),
+                                              [(x, z, a) for x in (-1.5, -0.5, 0.5, 1.5, 0.3, -0.7, 1, 0, 2, -1) for z, a in ((0, 0), (0.25, 0.5), (-0.6, 0.2))]),
+}
+
+
+def parametric_rule(ctx, repo):
+    ctx.rule('C03.f', 'parametric closed forms: `_unitary_` interpreted for probe parameter values equals the documented closed-form matrix '
+             '(big-endian) held in the checker', floor=6, style='FDX')
+    for cq, (pnames, ref, probes) in PARAMETRIC.items():
+        ci = repo.cls(cq)
+        fn = ci.methods.get('_unitary_')
+        if fn is None:
+            raise AnalysisError(f'{cq}._unitary_ vanished')
+        bad = None
+        for pv in probes:
+            self_obj = {}
+            for n_, v in zip(pnames, pv):
+                self_obj[n_] = v
+                self_obj['_' + n_] = v
+            if 'phi' in self_obj:
+                self_obj['phase'] = self_obj['phi']
+
+            def call_hook(call, it, ci=ci):
+                s_ = ast.unparse(call.func)
+                if s_.endswith('is_parameterized') or s_.endswith('_is_parameterized_'):
+                    return False
+                f_ = call.func
+                # SomeGate(k=v, ...)._unitary_()  /  cirq.unitary(SomeGate(...)) of a class defined in the same module
+                inner = None
+                if isinstance(f_, ast.Attribute) and f_.attr == '_unitary_' and isinstance(f_.value, ast.Call):
+                    inner = f_.value
+                elif s_.split('.')[-1] == 'unitary' and call.args and isinstance(call.args[0], ast.Call):
+                    inner = call.args[0]
+                if inner is not None:
+                    cn = (dotted(inner.func) or '').split('.')[-1]
+                    other = repo.classes.get(f'{ci.mod.name}.{cn}')
+                    if other is not None and '_unitary_' in other.methods and not inner.args:
+                        so = {}
+                        for k in inner.keywords:
+                            v_ = it.ev(k.value)
+                            so[k.arg] = v_
+                            so['_' + k.arg] = v_
+                        if 'phi' in so:
+                            so['phase'] = so['phi']
+                        sub = fdx.NumInterp({'self': so}, call_hook=lambda c2, i2: call_hook(c2, i2, other))
+                        return np.array(sub.call(other.methods['_unitary_']), dtype=complex)
+                return NotImplemented
+            it = fdx.NumInterp({'self': self_obj}, call_hook=call_hook)
+            try:
+                got = np.array(it.call(fn), dtype=complex)
+            except (fdx.Unsupported, fdx.Raised) as ex:
+                raise AnalysisError(f'cannot interpret {cq}._unitary_: {ex}')
+            want = np.array(ref(*pv), dtype=complex)
+            if got.shape != want.shape or not np.allclose(got, want, atol=1e-9):
+                d = np.argwhere(~np.isclose(got, want, atol=1e-9)) if got.shape == want.shape else [[0, 0]]
+                i, j = d[0]
+                bad = bad or f'at {dict(zip(pnames, [round(float(v), 4) for v in pv]))}: entry [{i},{j}] is {got[i, j] if got.shape == want.shape else "?"} but the documented matrix has {want[i, j]:.4g}'
+        ctx.ob('C03.f', f'{cq}._unitary_', bad is None, bad or '', ci.mod.rel, fn.lineno)
 
 
 def _lit(node):
